@@ -72,7 +72,7 @@ def quoted_items(items):
     return ", ".join(limit(lo) if single else limit(lo) + "..." + limit(hi) for lo, hi, single in items)
 
 
-def cid_rows(preset, decls, checks=(), header=0, allowed=None, extra=(), line_delimiter=None, allowed_quoted=False):
+def cid_rows(preset, decls, checks=(), header=0, allowed=None, extra=(), line_delimiter=None, allowed_quoted=False, allowed_after_fields=False):
     fmt, props, _, _ = PRESETS[preset]
     rows = [["D", "Format", fmt]]
     if header:
@@ -81,11 +81,14 @@ def cid_rows(preset, decls, checks=(), header=0, allowed=None, extra=(), line_de
         rows.append(["D", name, value])
     if line_delimiter:
         rows.append(["D", "Line delimiter", line_delimiter])
-    if allowed:
-        rows.append(["D", "Allowed characters", quoted_items(allowed) if allowed_quoted else fieldmodel.render_items(allowed)])
+    allowed_row = ["D", "Allowed characters", quoted_items(allowed) if allowed_quoted else fieldmodel.render_items(allowed)] if allowed else None
+    if allowed_row and not allowed_after_fields:
+        rows.append(allowed_row)
     for decl in decls:
         rows.append(["F", decl["name"], decl.get("example", ""), "X" if decl["empty"] else "", length_text(decl), decl["type"],
                      fieldmodel.render_rule(decl["type"], decl.get("rule"))])
+    if allowed_row and allowed_after_fields:
+        rows.append(allowed_row)  # data format rows may follow the fields: the property still applies to every field
     for check in checks:
         rows.append(["C"] + list(check))
     return rows
